@@ -75,4 +75,31 @@ def mapM {α β ε : Type} (f : α → Except ε β) : List α → Except ε (Li
       | .error e => .error e
       | .ok ys => .ok (y :: ys)
 
+/-! ### additive block (trb): loops with `break` / `continue` -/
+
+/-- how one iteration of a loop body ended: fell off the end or `continue` (`next`), or `break` (`brk`); with the loop-carried variables -/
+inductive Step (σ : Type) where
+  | next (s : σ)
+  | brk (s : σ)
+
+/-- `for x in xs: body` where the body may `break` / `continue` (no `return` inside) -/
+def forEachBrk {α σ ε : Type} (xs : List α) (body : α → σ → Except ε (Step σ)) (s : σ) : Except ε σ :=
+  match xs with
+  | [] => .ok s
+  | x :: rest =>
+    match body x s with
+    | .error e => .error e
+    | .ok (.brk s') => .ok s'
+    | .ok (.next s') => forEachBrk rest body s'
+/-- `try: body  except <class>: handler  else: orelse` — exceptions of `orelse` are not caught; `orelse` receives what `body` bound -/
+def tryExceptElse {α β ε : Type} (body : Except ε α) (caught : ε → Bool) (handler : Except ε β) (orelse : α → Except ε β) : Except ε β :=
+  match body with
+  | .ok v => orelse v
+  | .error e => if caught e then handler else .error e
+/-- reading a local that is bound on some paths only (`none` = unbound: `UnboundLocalError`) -/
+def bound {α : Type} (x : Option α) : Except Py.Exc α :=
+  match x with
+  | some v => .ok v
+  | none => .error .UnboundLocal
+
 end I18n.PyKit
